@@ -108,8 +108,18 @@ def verify_function(repo, qualname, timeout_ms=20000, cfg_symbols=(), want_model
     res.assumed = sorted(E.assumed_used)
     res.dead_paths = E.dead_paths
     axioms = W.all_global_axioms()
+    failed_per_clause = {}
     for ob in E.obligations:
         if only and not any(o in ob.name for o in only):
+            continue
+        ckey = (ob.kind, ob.name)
+        if ob.expect == 'unsat' and failed_per_clause.get(ckey, 0) >= 4 and ob.result != 'trivial':
+            # the clause already failed on four paths of this function: the function is not verified whatever the rest says;
+            # do not burn the solver budget on every remaining path (they stay undischarged, never counted as proved)
+            ob.result = 'unknown'
+            ob.reason = 'not attempted: the same clause already failed on 4 paths of this function'
+            ob.time = 0.0
+            res.obligations.append(ob)
             continue
         if ob.expect == 'not-unsat-strong':
             # vacuity guard that must also withstand MBQI (a refutation found only with MBQI once hid a vacuous loop proof)
@@ -119,6 +129,8 @@ def verify_function(repo, qualname, timeout_ms=20000, cfg_symbols=(), want_model
             discharge(ob, axioms, timeout_ms=min(timeout_ms, 3000), want_model=False, retry=False)
         else:
             discharge(ob, axioms, timeout_ms=timeout_ms, want_model=want_model)
+            if ob.result not in ('unsat', 'trivial'):
+                failed_per_clause[ckey] = failed_per_clause.get(ckey, 0) + 1
         res.obligations.append(ob)
     res.time = time.time() - t0
     res.world = W
